@@ -3,7 +3,7 @@ from .. import alnmon as M
 
 ID = "C02"
 LEVEL = "exploration"
-ENGINES = ['alnmon']
+ENGINES = ['alnmon', 'climon']
 TECHNIQUE = 'reference enumeration of admissible occurrences vs. the real match_to() (completeness oracle)'
 LEVEL_TEXT = 'For each generated (configuration, read) pair an independent enumeration/DP decides whether an admissible occurrence exists; then the real match_to() must report a match, and reported matches must respect the leftmost/rightmost exact-copy clauses. Held = no miss among the cases where the premise was true (counted as non-trivial).'
 LEVEL_NOTE = 'Trusted base: verif/refmodel.py admissible_ungapped / exists_gapped_no_adapter_start_skip / exact_full_copies. The with-indels clause is applied only to the adapter types the statement names.'
@@ -83,6 +83,8 @@ def run_shard(ctx):
             continue
         for _ in range(8):
             one(ctx, cfg, ad, M.gen_read(rng, cfg, ad.sequence))
+    for k in range(ctx.scale(8, 150)):
+        cli_case(ctx, ctx.shard * 100000 + k)
     if ctx.tier == "thorough":
         reads = list(M.exhaustive_reads(6))
         for cfg in M.exhaustive_configs(ctx.shard, ctx.nshards):
@@ -94,7 +96,63 @@ def run_shard(ctx):
                 one(ctx, cfg, ad, read)
 
 
+def cli_case(ctx, k):
+    """At the command line: after -a ADAPTER no exact copy of the adapter remains; an error-free anchored adapter is removed exactly."""
+    import os
+    import shutil
+    from .. import climon, fastx, gen_cli as G
+
+    rng = ctx.rng("c02cli", k)
+    ad = G.rnd(rng, rng.randint(5, 16))
+    mode = rng.choice(["back", "back", "prefix", "suffix"])
+    d = os.path.join(ctx.scratch, f"cli{k}")
+    os.makedirs(d, exist_ok=True)
+    try:
+        recs = []
+        for i in range(40):
+            left, right = G.rnd(rng, rng.randint(0, 25)), G.rnd(rng, rng.randint(0, 25))
+            r = rng.random()
+            if mode == "prefix":
+                s = ad + right if r < 0.7 else left + right
+            elif mode == "suffix":
+                s = left + ad if r < 0.7 else left + right
+            else:
+                s = left + ad + right if r < 0.5 else left + ad + G.rnd(rng, 3) + ad + right if r < 0.7 else left + right
+            recs.append((f"r{i}", s, "I" * len(s)))
+        inputs = climon.write_inputs(d, recs)
+        spec = dict(back=ad, prefix="^" + ad, suffix=ad + "$")[mode]
+        argv = ["-g" if mode == "prefix" else "-a", spec, "-e", rng.choice(["0", "0.1", "0.2"]), "-o", "out.fq"] + (["--no-indels"] if rng.random() < 0.3 else [])
+        run = climon.run(d, argv + inputs, trace=False)
+        ctx.count("cli_runs")
+        if run.rc != 0:
+            ctx.count("cli_runs_failed")
+            return
+        case = climon.case_record(argv + inputs, d, inputs)
+        case["cli_k"] = k
+        fo = run.records("out.fq")
+        outs = {fastx.rid(r[0]): r[1] for r in fo[1]} if fo and fo[0] != "error" else {}
+        for name, s, q in recs:
+            o = outs.get(name)
+            has = ad in s
+            ctx.case(("cli", mode, ad, s) if has else None)
+            if o is None:
+                ctx.violation("cli-read-missing", f"read {name} not written; argv={argv}", case)
+                continue
+            if mode == "back" and ad in o:
+                ctx.violation("exact-copy-survives", f"exact copy of {ad} remains in the output {o!r} of read {s!r}; argv={argv}", case, klass="cli")
+            if mode == "prefix" and s.startswith(ad) and o != s[len(ad):]:
+                ctx.violation("anchored-exact", f"read {s!r} starts with the anchored adapter {ad}, output {o!r}; argv={argv}", case, klass="cli")
+            if mode == "suffix" and s.endswith(ad) and o != s[: len(s) - len(ad)]:
+                ctx.violation("anchored-exact", f"read {s!r} ends with the anchored adapter {ad}, output {o!r}; argv={argv}", case, klass="cli")
+    finally:
+        shutil.rmtree(d, ignore_errors=True)
+
+
 def replay(ctx, case):
+    if case.get("cli"):
+        ctx.shard = case["cli_k"] // 100000
+        cli_case(ctx, case["cli_k"])
+        return
     cfg = {k: v for k, v in case.items() if k != "read"}
     ad = M.build(cfg)
     if ad is None:
